@@ -789,7 +789,11 @@ class Graph:
                 "services": [{"addr": self.ids.get(s.meta.address, -1), "name": s.name, "internal": bool(s.is_internal),
                               "client_name": s.client_name, "async_client_name": s.async_client_name,
                               "methods": [{"addr": self.ids.get(m.ident, -1), "name": m.name, "internal": bool(m.is_internal),
-                                           "client_method_name": m.client_method_name} for m in s.methods.values()]}
+                                           "client_method_name": m.client_method_name,
+                                           # (stem, suffix) of the python methods client.py.j2 emits for the RPC
+                                           "surface": [[m.client_method_name, ""]] +
+                                                      ([[m.client_method_name, "_unary"]] if (m.extended_lro and m.operation_service) else [])}
+                                          for m in s.methods.values()]}
                              for s in proto.services.values()],
                 "messages": [self.ids.get(v.ident, -1) for v in proto.all_messages.values()],
                 "enums": [self.ids.get(v.ident, -1) for v in proto.all_enums.values()],
@@ -1300,6 +1304,9 @@ def views(spec):
 
 
 MIXIN_NAMES = {"get_location", "list_locations", "get_operation", "cancel_operation"}
+# every method a mixin can put on a client (fixed names of google.longrunning.Operations, Locations, IAMPolicy)
+CANON_MIXIN_METHODS = {"list_operations", "get_operation", "delete_operation", "cancel_operation", "wait_operation",
+                       "get_location", "list_locations", "get_iam_policy", "set_iam_policy", "test_iam_permissions"}
 
 
 def with_mixins(spec, doc):
@@ -1680,6 +1687,24 @@ def t3_api(ctx, r, spec, nvar, label, variants=None):
                 # the omitted RPCs and the path helpers of resources nobody needs any more
                 if set(members) & MIXIN_NAMES != fmembers & MIXIN_NAMES:
                     ctx.fail("mixin-surface", f"{cn}: mixin methods {sorted(set(members) & MIXIN_NAMES)}, the full library has {sorted(fmembers & MIXIN_NAMES)}", payload)
+                # every PUBLIC attribute that is an RPC entry point (takes request/retry/timeout/metadata; the canonical mixin
+                # methods aside) belongs to an RPC the caller may use: a listed one, or in omitting mode a needed polling method.
+                # An unlisted RPC has no public attribute that starts with its snake-case name (`<rpc>`, `<rpc>_unary`, ...).
+                frl = set(full["surface"][s["name"]].get("rpc_like", {}).get(s["name"] + suffix, []))
+                for a in sorted(set(surf.get("rpc_like", {}).get(cn, [])) - CANON_MIXIN_METHODS):
+                    if a.startswith("_"):
+                        continue
+                    owners = [m for m in s["methods"] if a == snake(m["name"]) or a.startswith(snake(m["name"]) + "_")]
+                    if not owners:
+                        if a not in frl:        # (an RPC-like attribute of no RPC that the full library has too is not ours to judge)
+                            ctx.fail("rpc-set", f"{cn}: public RPC entry point {a} belongs to no RPC of {s['name']}", payload)
+                        continue
+                    m = max(owners, key=lambda q: len(q["name"]))
+                    fq = f"{sk}.{m['name']}"
+                    if not (fq in listed or (not internal and fq in req_methods)):
+                        ctx.fail("internal-names" if internal else "rpc-set",
+                                 f"{cn}: public method {a} is an entry point of the unlisted RPC {m['name']}"
+                                 + (f" (internal mode must call it _{a})" if internal else ""), payload)
                 novel = {n for n in members if not n.startswith("_")} - fmembers
                 if novel:
                     ctx.fail("rpc-set", f"{cn}: public members the full library does not have: {sorted(novel)[:5]}", payload)
@@ -1689,10 +1714,8 @@ def t3_api(ctx, r, spec, nvar, label, variants=None):
                 mnames = set()
                 for x in msvc[:1]:
                     for mm in x["methods"]:
-                        cm = mm["client_method_name"]
-                        sn = "_" + snake(cm[1:]) if cm.startswith("_") else snake(cm)
-                        src = next(q for q in s["methods"] if q["name"] == mm["name"])
-                        mnames |= {sn} | ({sn + "_unary"} if src.get("opservice") else set())
+                        for stem, suffix in mm.get("surface", [[mm["client_method_name"], ""]]):
+                            mnames.add(("_" + snake(stem[1:]) if stem.startswith("_") else snake(stem)) + suffix)
                     if {x["client_name"], x["async_client_name"]} != set(surf["classes"]):
                         ctx.disagree("T3:c16.client_names", f"model {x['client_name']} vs emitted {sorted(surf['classes'])}", payload)
                 for cn, members in surf["classes"].items():
@@ -1926,7 +1949,11 @@ def run(ctx):
         # starting RPC(s) next to RPCs of the operation service, the polling method needed but not listed;
         # a starting RPC plus anything; internal mode; no starting RPC at all
         variants = [(ext_subset(r, spec), False), (sorted(starter[:1] + r.sample(others, min(1, len(others)))), False),
-                    (sorted(starter), True), (sorted(r.sample(others, min(2, len(others)))), False)]
+                    (sorted(starter), True), (sorted(r.sample(others, min(2, len(others)))), False),
+                    # internal mode with UNLISTED extended-operation RPCs: none listed; one of several listed
+                    (sorted(r.sample(others, min(r.randint(1, 2), len(others)))), True)]
+        if len(starter) > 1:
+            variants.append((sorted(starter[:1] + polling), True))
         t3_api(ctx, r, spec, 0, f"t3ext-{a}", variants=variants)
 
 
